@@ -235,6 +235,18 @@ def enumerate_view(it, uid, target):
     return None
 
 
+def positional_zip_view(it, uid, target):
+    """`for a, b in zip(A, B)` seen by position: `for i in range(min(len(A), len(B)))` with a = A[i], b = B[i]; None otherwise."""
+    if isinstance(it, tuple) and len(it) == 4 and it[0] == "call" and it[1] == ("global", "zip") and len(it[2]) >= 2 and not it[3] \
+            and not any(a[0] == "star" for a in it[2]) \
+            and isinstance(target, (ast.Tuple, ast.List)) and len(target.elts) == len(it[2]) and not any(isinstance(x, ast.Starred) for x in target.elts):
+        lens = tuple(("call", ("global", "len"), (a,), ()) for a in it[2])
+        rng = ("call", ("global", "range"), (("call", ("global", "min"), lens, ()),), ())
+        e2 = ("elem", rng, uid)
+        return rng, e2, [("index", a, e2) for a in it[2]]
+    return None
+
+
 def fuse_deep(t, stop=lambda x: False):
     """Rule-level normal form of selections over paired lists (terms the rule opts in for; ``stop(t)`` keeps a sub-term opaque):
 
@@ -780,7 +792,7 @@ class FunctionTerms:
                     and not any(isinstance(x, ast.Starred) for x in s.target.elts):
                 it, elem, comps = zv
             else:
-                zv = enumerate_view(it, uid, s.target)
+                zv = enumerate_view(it, uid, s.target) or positional_zip_view(it, uid, s.target)
                 if zv is not None:
                     it, elem, comps = zv
             frame = ("for", uid, elem, it, s)
